@@ -89,6 +89,21 @@ def run_case(case):
     else:
         # differs from the base set only in one leaf
         psets[2] = {**params, "beta": round(params["beta"] * 0.83, 4)}
+    if ref.stoch:
+        # probabilities that are tiny but positive (1e-20): legitimate numbers in a transition array
+        import copy
+
+        for ps in psets:
+            sh = copy.deepcopy(ps["shocks"])
+            for s_, arr in sh.items():
+                a_ = np.asarray(arr, dtype=float)
+                flat = a_.reshape(-1, a_.shape[-1])
+                r_ = int(rng.integers(0, flat.shape[0]))
+                j_ = int(np.argmin(flat[r_]))
+                flat[r_, j_] = max(flat[r_, j_], 1e-20) if flat[r_, j_] > 0 else 1e-20
+                sh[s_] = flat.reshape(a_.shape).tolist()
+            ps["shocks"] = sh
+        add("tiny_probability_entries", len(psets))
     inits = [gen.gen_initial_states(rng, ref, 8), gen.gen_initial_states(rng, ref, 5)]
     seeds = [3, 77]
     sim_args = [{"params": psets[int(rng.integers(0, 3))], "init": {k: np.asarray(v).tolist() for k, v in inits[i % 2].items()}, "seed": seeds[(i // 2) % 2]} for i in range(3)]
@@ -139,6 +154,7 @@ def run_case(case):
         history += [history[0], history[1 % len(history)], ("solve", 0), ("sim", 0), ("sim", 1), ("sim", 0), ("solve", 0), ("solve", 2), ("solve", 0),
                     ("sim", 3), ("sim", 0), ("sim", 1)]
         shared_p = None
+        shared_ps = None
         for h, (kind, i) in enumerate(history):
             leaf = leafs[h % 4]
             m_before = snapshot_model(model)
@@ -155,7 +171,12 @@ def run_case(case):
                 got = {f"solve{i}__t{t}": np.asarray(a, dtype=float) for t, a in enumerate(r)}
             else:
                 a = sim_args[i]
-                p_in = dsl.lcm_params(a["params"], leaf=leaf)
+                if h % 2 == 1:
+                    shared_ps = pipeline.update_params_in_place(shared_ps, dsl.lcm_params(a["params"], leaf=leaf)) if shared_ps is not None else dsl.lcm_params(a["params"], leaf=leaf)
+                    p_in = shared_ps
+                    add("calls_with_params_edited_in_place")
+                else:
+                    p_in = dsl.lcm_params(a["params"], leaf=leaf)
                 p_before = snapshot_params(p_in)
                 import jax.numpy as jnp
 
